@@ -1,1 +1,232 @@
-/-! # C04 — property theorems (stub) -/
+import Okane.Props.C02
+import Okane.Model.Range
+import Okane.Model.Process
+/-!
+# C04 — reported balances equal the sum of the register, over any date range
+-/
+set_option linter.unusedSectionVars false
+namespace Okane
+variable {α κ : Type} [DecidableEq α] [DecidableEq κ]
+open Spec
+
+/-- the placeholder of the omitted posting is empty until the deduced amount is filled in -/
+theorem loop_unfilled_empty (date : Date) (ps : List (RPosting α κ)) (st st' : TxnState α κ) (idx : Nat)
+    (h : loopPostings date st idx ps = .ok st') (hi : st.IdxOK idx)
+    (he : ∀ u, st.unfilled = some u → ∃ o, st.postings[u]? = some o ∧ o.amount = []) :
+    ∀ u, st'.unfilled = some u → ∃ o, st'.postings[u]? = some o ∧ o.amount = [] := by
+  induction ps generalizing st idx with
+  | nil => simp [loopPostings] at h; subst h; exact he
+  | cons p ps ih =>
+    simp only [loopPostings] at h
+    split at h
+    · rename_i st1 h1
+      refine ih st1 (idx + 1) h (IdxOK_step date st st1 idx p h1 hi) ?_
+      intro u hu
+      obtain ⟨out, d, hp, _, _, _⟩ := stepPosting_shape date st st1 idx p h1
+      unfold stepPosting at h1
+      split at h1
+      · simp only [Outcome.ok.injEq] at h1; subst h1
+        obtain ⟨o, ho, hoe⟩ := he u hu
+        have hlt := hi.2 u hu
+        exact ⟨o, by simp only [List.getElem?_append_left hlt]; exact ho, hoe⟩
+      · split at h1
+        · simp at h1
+        · simp only [Outcome.ok.injEq] at h1; subst h1
+          simp only [Option.some.injEq] at hu
+          subst hu
+          refine ⟨⟨p.account, [], none⟩, ?_, rfl⟩
+          simp [hi.1]
+      all_goals simp at h1
+    all_goals simp at h
+
+theorem acctSum_modify_empty (outs : List (OutPosting α κ)) (u : Nat) (o : OutPosting α κ) (x : Amount κ)
+    (ho : outs[u]? = some o) (he : o.amount = []) (a : α) (c : κ) :
+    acctSum (outs.modify u fun p => { p with amount := x }) a c =
+      acctSum outs a c + (if o.account = a then Amount.getPart x c else 0) := by
+  induction outs generalizing u with
+  | nil => simp at ho
+  | cons hd tl ih =>
+    cases u with
+    | zero =>
+      simp only [List.getElem?_cons_zero, Option.some.injEq] at ho
+      subst ho
+      simp only [List.modify_cons, acctSum, List.map_cons, List.sum_cons, he]
+      by_cases h1 : hd.account = a <;> simp [h1] <;> grind
+    | succ n =>
+      simp only [List.getElem?_cons_succ] at ho
+      have := ih n ho
+      simp only [List.modify_cons, acctSum, List.map_cons, List.sum_cons] at this ⊢
+      grind
+
+theorem fillConverted_account (a1 a2 : SingleAmount κ) (p : OutPosting α κ) :
+    (fillConverted a1 a2 p).account = p.account := by
+  unfold fillConverted
+  split
+  · split
+    · rfl
+    · split <;> rfl
+  · rfl
+
+/-- **one transaction**: every account's balance moves by exactly the sum of the amounts the accepted
+transaction posts to it (the inferred amount of the omitted posting included). -/
+theorem txn_balance (prec : κ → Option Nat) (bal : Balance α κ) (t : RTxn α κ) (res : TxnResult α κ)
+    (h : addTransaction prec bal t = .ok res) (hinv : Balance.Inv bal) :
+    Balance.Inv res.bal ∧
+    ∀ a c, Amount.getPart (Balance.get res.bal a) c = Amount.getPart (Balance.get bal a) c + acctSum res.txn.postings a c := by
+  unfold addTransaction at h
+  cases hloop : loopPostings t.date ⟨[], none, [], bal, [], []⟩ 0 t.posts with
+  | ok st =>
+    rw [hloop] at h
+    simp only at h
+    obtain ⟨hinv', outs, hp, hwfs, hsum⟩ := C02_invariant t.date t.posts _ st 0 hloop hinv
+    simp only [List.nil_append] at hp
+    have hbal := BalOK_loop t.date t.posts _ st 0 hloop (BalOK_init bal)
+    have hempty := loop_unfilled_empty t.date t.posts _ st 0 hloop ⟨rfl, by simp⟩ (by simp)
+    cases hu : st.unfilled with
+    | some u =>
+      simp only [hu] at h
+      obtain ⟨o, ho, hoe⟩ := hempty u hu
+      simp only [ho, Option.map_some, Outcome.ok.injEq] at h
+      subst h
+      refine ⟨Balance.Inv_addAmount _ _ _ hinv', fun a c => ?_⟩
+      simp only
+      rw [Balance.getPart_addAmount _ _ _ _ hinv' (Amount.WF_neg _ hbal.1), hsum a c,
+        acctSum_modify_empty st.postings u o _ ho hoe a c, hp]
+      grind
+    | none =>
+      simp only [hu] at h
+      cases hcb : checkBalance prec t.date st.postings st.balance with
+      | ok r =>
+        obtain ⟨postings, pe⟩ := r
+        rw [hcb] at h
+        simp only [Outcome.ok.injEq] at h; subst h
+        refine ⟨hinv', fun a c => ?_⟩
+        simp only
+        rw [hsum a c]
+        congr 1
+        -- check_balance only fills `converted`
+        unfold checkBalance at hcb
+        simp only at hcb
+        split at hcb
+        · simp only [Outcome.ok.injEq, Prod.mk.injEq] at hcb; rw [← hcb.1, hp]
+        · split at hcb
+          · simp only [Outcome.ok.injEq, Prod.mk.injEq] at hcb
+            rw [← hcb.1, hp]
+            simp only [acctSum, List.map_map, Function.comp_def, fillConverted_amount, fillConverted_account]
+          · simp at hcb
+      | err e => rw [hcb] at h; simp at h
+      | panic e => rw [hcb] at h; simp at h
+      | fuelOut => rw [hcb] at h; simp at h
+  | err e => rw [hloop] at h; simp at h
+  | panic e => rw [hloop] at h; simp at h
+  | fuelOut => rw [hloop] at h; simp at h
+
+/-- **C04_nozero**: an account never holds a commodity whose total is zero. -/
+theorem C04_nozero (prec : κ → Option Nat) (bal : Balance α κ) (t : RTxn α κ) (res : TxnResult α κ)
+    (h : addTransaction prec bal t = .ok res) (hinv : Balance.Inv bal) (a : α) :
+    ∀ kv ∈ Balance.get res.bal a, kv.2 ≠ 0 :=
+  ((txn_balance prec bal t res h hinv).1 a).2
+
+/-! ## date ranges -/
+
+/-- sum, over the (date, posting) pairs selected by `sel`, of the amounts posted to `a` in `c` -/
+def selSum (ps : List (Date × OutPosting α κ)) (sel : Date → Bool) (a : α) (c : κ) : Rat :=
+  (ps.map fun dp => if sel dp.1 ∧ dp.2.account = a then Amount.getPart dp.2.amount c else 0).sum
+
+/-- every posting amount of the ledger has unique keys -/
+def PostingsWF (txns : List (OutTxn α κ)) : Prop := ∀ dp ∈ allPostings txns, AMap.WF dp.2.amount
+
+theorem rangeFold (ps : List (Date × OutPosting α κ)) (r : DateRange) (b : Balance α κ) (hinv : Balance.Inv b)
+    (hwf : ∀ dp ∈ ps, AMap.WF dp.2.amount) :
+    Balance.Inv (ps.foldl (fun b dp => if r.contains dp.1 then (Balance.addAmount b dp.2.account dp.2.amount).1 else b) b) ∧
+    ∀ a c, Amount.getPart (Balance.get (ps.foldl (fun b dp => if r.contains dp.1 then (Balance.addAmount b dp.2.account dp.2.amount).1 else b) b) a) c =
+      Amount.getPart (Balance.get b a) c + selSum ps r.contains a c := by
+  induction ps generalizing b with
+  | nil => exact ⟨hinv, fun a c => by simp [selSum]⟩
+  | cons dp tl ih =>
+    simp only [List.foldl_cons]
+    have hwf' : ∀ dp ∈ tl, AMap.WF dp.2.amount := fun x hx => hwf x (List.mem_cons_of_mem _ hx)
+    by_cases hc : r.contains dp.1 = true
+    · simp only [hc, if_true]
+      obtain ⟨hi, hs⟩ := ih _ (Balance.Inv_addAmount _ _ _ hinv) hwf'
+      refine ⟨hi, fun a c => ?_⟩
+      rw [hs a c, Balance.getPart_addAmount _ _ _ _ hinv (hwf dp (by simp))]
+      simp only [selSum, List.map_cons, List.sum_cons, hc]
+      by_cases h1 : dp.2.account = a <;> simp [h1] <;> grind
+    · have hc' : r.contains dp.1 = false := by simpa using hc
+      simp only [hc', Bool.false_eq_true, if_false]
+      obtain ⟨hi, hs⟩ := ih _ hinv hwf'
+      refine ⟨hi, fun a c => ?_⟩
+      rw [hs a c]
+      simp [selSum, hc']
+
+/-- **C04_range**: the recomputed balance over `[start, end)` is, for every account and commodity, the sum of the
+amounts of the postings of the transactions dated in the range (and holds no zero entry). -/
+theorem C04_range (txns : List (OutTxn α κ)) (r : DateRange) (hwf : PostingsWF txns) (a : α) (c : κ) :
+    Amount.getPart (Balance.get (rangeBalanceRaw txns r) a) c = selSum (allPostings txns) r.contains a c ∧
+    Amount.NoZero (Balance.get (rangeBalanceRaw txns r) a) := by
+  obtain ⟨hi, hs⟩ := rangeFold (allPostings txns) r [] Balance.Inv_nil hwf
+  refine ⟨?_, (hi a).2⟩
+  have := hs a c
+  have h0 : Amount.getPart (Balance.get ([] : Balance α κ) a) c = 0 := by simp [Balance.get]
+  rw [h0] at this
+  unfold rangeBalanceRaw
+  rw [this]; simp
+
+theorem selSum_split (ps : List (Date × OutPosting α κ)) (s1 s2 s : Date → Bool)
+    (hsel : ∀ d, (s d = true ↔ (s1 d = true ∨ s2 d = true)) ∧ ¬ (s1 d = true ∧ s2 d = true)) (a : α) (c : κ) :
+    selSum ps s a c = selSum ps s1 a c + selSum ps s2 a c := by
+  induction ps with
+  | nil => simp [selSum]
+  | cons dp tl ih =>
+    simp only [selSum, List.map_cons, List.sum_cons] at ih ⊢
+    rw [ih]
+    have := hsel dp.1
+    by_cases h1 : s1 dp.1 = true <;> by_cases h2 : s2 dp.1 = true <;> by_cases h3 : s dp.1 = true <;>
+      simp [h1, h2, h3] at this ⊢ <;> grind
+
+/-- **C04_additive**: reports over adjacent ranges `[s, m)` and `[m, e)` add up to the report over `[s, e)`
+(any of the ends may be unbounded; empty ranges included). -/
+theorem C04_additive (txns : List (OutTxn α κ)) (s e : Option Date) (m : Date)
+    (hsm : ∀ s', s = some s' → s' ≤ m) (hme : ∀ e', e = some e' → m ≤ e')
+    (hwf : PostingsWF txns) (a : α) (c : κ) :
+    Amount.getPart (Balance.get (rangeBalanceRaw txns ⟨s, e⟩) a) c =
+      Amount.getPart (Balance.get (rangeBalanceRaw txns ⟨s, some m⟩) a) c +
+      Amount.getPart (Balance.get (rangeBalanceRaw txns ⟨some m, e⟩) a) c := by
+  rw [(C04_range txns ⟨s, e⟩ hwf a c).1, (C04_range txns ⟨s, some m⟩ hwf a c).1, (C04_range txns ⟨some m, e⟩ hwf a c).1]
+  apply selSum_split
+  intro d
+  simp only [DateRange.contains]
+  have hlt : ∀ x y : Date, (x < y) = (x.dayNumber < y.dayNumber) := fun _ _ => rfl
+  have hle : ∀ x y : Date, (x ≤ y) = (x.dayNumber ≤ y.dayNumber) := fun _ _ => rfl
+  cases s with
+  | none =>
+    cases e with
+    | none => simp [hlt, hle]; omega
+    | some e' =>
+      have := hme e' rfl
+      simp [hlt, hle] at this ⊢; omega
+  | some s' =>
+    have h1 := hsm s' rfl
+    cases e with
+    | none => simp [hlt, hle] at h1 ⊢; omega
+    | some e' =>
+      have h2 := hme e' rfl
+      simp [hlt, hle] at h1 h2 ⊢; omega
+
+/-- the register's final running total is the sum of the listed amounts -/
+theorem register_total (ps : List (OutPosting α κ)) (hwf : ∀ p ∈ ps, AMap.WF p.amount) (c : κ) :
+    ∀ acc : List (OutPosting α κ × Amount κ) × Amount κ, AMap.WF acc.2 →
+      Amount.getPart (ps.foldl (fun (acc : List (OutPosting α κ × Amount κ) × Amount κ) p =>
+        let tot := acc.2.add p.amount
+        (acc.1 ++ [(p, tot)], tot)) acc).2 c = Amount.getPart acc.2 c + (ps.map fun p => Amount.getPart p.amount c).sum := by
+  induction ps with
+  | nil => intro acc _; simp
+  | cons p tl ih =>
+    intro acc hacc
+    simp only [List.foldl_cons]
+    rw [ih (fun q hq => hwf q (List.mem_cons_of_mem _ hq)) _ (Amount.WF_add _ _ hacc)]
+    simp only [Amount.getPart_add _ _ (hwf p (by simp)), List.map_cons, List.sum_cons]
+    grind
+
+end Okane
